@@ -416,7 +416,9 @@ def check_property(pid, tier, seed):
             sel = alt["body_of"]
             for fn, msgs in main["failed_fns"].items():
                 if sel == "*" or fn in sel:
-                    if fn in main.get("calls_uncontracted", {}):
+                    if fn in main["uncontracted"] or fn in main.get("auto_contracts", []):
+                        undecided.append(f"body obligation of {fn} fails, but {fn} is new to the tree and has no contract (its callers' preconditions are unknown): undecided")
+                    elif fn in main.get("calls_uncontracted", {}):
                         undecided.append(f"body obligation of {fn} fails, but it calls {', '.join(main['calls_uncontracted'][fn])} which has no contract (new function): undecided")
                     elif fn in main.get("panic_fns", {}):
                         # overflow / out-of-range / failed unwrap / reachable unreachable!() / a library panic condition
